@@ -233,7 +233,8 @@ fn session(c: &mut Case) {
                     model.deliver(ck);
                 }
             } else {
-                c.inc("answers_not_accepted");
+                c.inc(if choice < 6 && real_cookies { "answers_not_accepted_real" } else { "answers_not_accepted_forged" });
+                if c.replaying { eprintln!("not accepted: r={:?} evs={:?} ans={}", r.as_ref().map(|_| ()).map_err(|p| p.message.clone()), evs, hex(&ans)); }
             }
         }
         c.inc("cookie_counts_checked");
